@@ -271,8 +271,9 @@ def custom(ctx):
 # end-to-end scenarios of the whole Server through the public API (real threads, real time)
 # ---------------------------------------------------------------------------------------------
 E2E_QUICK = ["forced_held", "stop_twice_forced", "stop_dropped_unpolled", "idle_graceful", "stop_after_done", "graceful_held",
-             "graceful_timeout", "signal_int", "signal_quit", "signal_term_held"]
-E2E_THOROUGH = E2E_QUICK + ["stop_while_paused", "stop_twice_graceful", "two_workers_graceful", "signal_term"]
+             "graceful_timeout", "signal_int", "signal_quit", "signal_term_held", "stop_while_paused", "stop_twice_graceful",
+             "two_workers_graceful", "signal_term"]
+E2E_THOROUGH = E2E_QUICK
 
 
 def e2e(ctx, thorough):
@@ -289,7 +290,7 @@ def e2e(ctx, thorough):
             out = "HANG"
         return name, out
 
-    with ThreadPoolExecutor(max_workers=12) as ex:
+    with ThreadPoolExecutor(max_workers=14) as ex:
         res = list(ex.map(one, names))
     ctx.cov["extra_evaluations"] = ctx.cov.get("extra_evaluations", 0) + len(res)
     ctx.cov["extra_distinct_nontrivial"] = ctx.cov.get("extra_distinct_nontrivial", 0) + len(res)
